@@ -218,6 +218,9 @@ Definition pv_awg (s : seq) (ix : index) : pv :=
   end.
 
 (* ---- outputForSEQXFile ---- *)
+(* outputForSEQXFile: `if len(wfm) < 2400: raise ValueError` *)
+Definition seqx_min_points : Z := 2400.
+
 Definition seqx_seq_ok (n : Z) (q : sqing) : bool :=
   in_range 0 4 (twait q) && in_range 0 4 (jump_input q) && in_range 0 16384 (nrep q)
   && in_range (-1) (n + 1) (jump_target q) && in_range 0 (n + 1) (goto q).
@@ -249,7 +252,7 @@ Definition output_seqx (s : seq) (withflags : bool) : pv :=
         | Err e => PErr e
         | Ok per =>
           if existsb (fun l : list (chan * (prepch * Q * Z)) =>
-                        existsb (fun x : chan * (prepch * Q * Z) => snd (snd x) <? 2400) l) per
+                        existsb (fun x : chan * (prepch * Q * Z) => snd (snd x) <? seqx_min_points) l) per
           then PErr EValue else
           let ranges := flat_map (fun l : list (chan * (prepch * Q * Z)) =>
                           map (fun x : chan * (prepch * Q * Z) =>
